@@ -182,7 +182,7 @@ def mon_c02(c, r):
 
 
 def clean(r):
-    if r.case.family.startswith('tokio-share') and r.prefix != 'r0.':
+    if r.case.family.startswith('share') and r.prefix != 'r0.':
         return False      # the run starts on an InterruptibilityState that was already interrupted
     if r.kind == 'call':
         return (r.cfg.get('strat', 'non') in ('non', 'ign') or 'i' not in [e.lstrip('+') for e in r.events]) and not r.failed()
@@ -519,7 +519,7 @@ def _same_as_fresh(c, p, f, what):
 
 
 def mon_c15(c):
-    if c.family.startswith('tokio-share'):
+    if c.family.startswith('share'):
         return None      # runs share one InterruptibilityState on purpose: no fresh-graph oracle
     """A later run on the reused graph value = the same run on a fresh graph (harness oracle runs f<j>.)"""
     for j in range(0, len(c.runs)):
